@@ -56,6 +56,17 @@ def r1(ctx: Ctx, run: FuncInfo, fl, loop) -> None:
         and 'key:source:columns' in rfl.atoms(pf[0].args[1], pf[0])
     ctx.check(ok, 'C11.R1', rs, 'format', "format -> parse_format_string(source['format'], columns.description)",
               'the format string / description template of the source do not reach parse_format_string', pf[0] if pf else None)
+    # each source gets a FormatSpec of its own: the object whose attributes the per-source settings overwrite is the fresh result of
+    # parse_format_string, never one that is also reachable from a table outliving the call (a cache would share one object between sources)
+    ostores = [s for s in rfl.cfg.stmts() if isinstance(s, ast.Assign) and isinstance(s.targets[0], ast.Attribute) and src(s.targets[0].value) == 'format_spec']
+    if ostores:
+        leaves = rfl.leaf_paths(ostores[0].targets[0].value, ostores[0])
+        shared = sorted({l for l, _ops in leaves if l.startswith('global:') and l[7:] in rs.module.globals_assigned})
+        stored = [s for s in rfl.cfg.stmts() if isinstance(s, ast.Assign) and any(isinstance(t, ast.Subscript) and isinstance(t.value, ast.Name) and t.value.id in rs.module.globals_assigned
+                                                                                   for t in s.targets)]
+        ctx.check(not shared and not stored, 'C11.R1', rs, 'spec-fresh', 'each source gets its own FormatSpec object',
+                  f'the FormatSpec that the source\'s own settings are written into is kept in / read from the module-level table {shared or [src(x.targets[0])[:40] for x in stored[:1]]}: '
+                  f'sources with the same format string share one object, so one source\'s delimiter / has_header / negate_amount leaks onto the others', ostores[0])
     for key in ('delimiter', 'has_header', 'negate_amount'):
         stores = [s for s in rfl.cfg.stmts() if isinstance(s, ast.Assign) and src(s.targets[0]) == f'format_spec.{key}']
         ok = len(stores) == 1 and src(stores[0].value) == f"source['{key}']" and (f"'{key}' in source", True) in rfl.cfg.guard_literals(stores[0])
@@ -113,6 +124,35 @@ def r1(ctx: Ctx, run: FuncInfo, fl, loop) -> None:
         at, a = arg_atoms(pc, 'parsers.parse_generic_csv', pname)
         ctx.check(at is not None and want in at, 'C11.R1', run, f'wire:{pname}', text_,
                   f'parse_generic_csv({pname}=…) is {src(a) if a is not None else "omitted"!r}: the setting does not reach the parser', pc)
+    # every candidate location of the source file lies under the budget: each definition of the path that can reach the parser is built from config_dir
+    _at, a_fp = arg_atoms(pc, 'parsers.parse_generic_csv', 'filepath')
+    if isinstance(a_fp, ast.Name):
+        todo, seen_defs, outside = [(a_fp.id, fl.stmt_of(pc))], set(), []
+        while todo:
+            nm, at_stmt = todo.pop()
+            for dn in fl.cfg.defs_reaching(at_stmt, nm):
+                if dn == 'param' or dn in seen_defs:
+                    continue
+                seen_defs.add(dn)
+                ds = fl.cfg.stmt[dn]
+                v = getattr(ds, 'value', None)
+                if v is None:
+                    continue
+                if any(isinstance(x, ast.Name) and x.id == nm for x in ast.walk(v)):
+                    todo.append((nm, ds))           # filepath = normpath(filepath): follow the previous definition
+                    continue
+                # syntactic on purpose: `source` itself derives from load_config(config_dir), so full provenance would always mention config_dir
+                names = {x.id for x in ast.walk(v) if isinstance(x, ast.Name)}
+                via = set()
+                for nm2 in names - {svar}:
+                    for d2 in fl.cfg.defs_reaching(ds, nm2):
+                        if d2 != 'param' and getattr(fl.cfg.stmt[d2], 'value', None) is not None:
+                            via |= {x.id for x in ast.walk(fl.cfg.stmt[d2].value) if isinstance(x, ast.Name)}
+                if 'config_dir' not in names and 'config_dir' not in via:
+                    outside.append(ds)
+        ctx.check(not outside, 'C11.R1', run, 'wire:filepath-under-budget', 'the source file is looked up relative to the budget directory only',
+                  f'{src(outside[0])[:70] if outside else ""!r} looks the file up without config_dir (relative to the working directory): a missing source silently reads an unrelated file '
+                  f'of the same name from wherever tally was started, and is no longer reported as missing', outside[0] if outside else None)
     gt = fl.calls('get_transforms')
     ok = len(gt) == 1 and 'key:config:_merchants_file' in fl.atoms(gt[0].args[0], gt[0])
     ctx.check(ok, 'C11.R1', run, 'wire:transforms-file', 'transforms come from the configured merchants file', 'get_transforms is not given config[_merchants_file]', gt[0] if gt else None)
